@@ -14,6 +14,7 @@ import GwModel.Drv.PlanCodec
 import GwModel.Exec.Machine
 import GwModel.ExecSeq
 import GwModel.ScrubApply
+import GwModel.MergeSig
 /-! gwdrv: one JSON object per line in, one per line out (DESIGN §2.2). Core + Lean.Data.Json only. -/
 open Lean Codec
 
@@ -242,10 +243,28 @@ def runHttpReqParse (j : Json) : Json :=
   | .error status => Json.mkObj [("err", .num (JsonNumber.fromNat status))]
   | .ok (ops, batch) => Json.mkObj [("ops", .arr (ops.map encOp).toArray), ("batch", .bool batch)]
 
+partial def decTy (j : Json) : Ms.Ty :=
+  .mk (getStr j "named") (getBool j "nonNull") ((getObj? j "elem").bind fun e => match e with | .null => none | _ => some (decTy e))
+
+partial def decV (j : Json) : Ms.V :=
+  .mk (getStr j "kind") (getStr j "raw") ((getArr j "children").map fun c => (getStr c "name", decV ((getObj? c "value").getD (Json.mkObj []))))
+
+def decArgDefs (js : List Json) : List Ms.ArgDef :=
+  js.map fun a => { name := getStr a "name", type := decTy ((getObj? a "type").getD (Json.mkObj [])),
+                    default := (getObj? a "default").bind fun d => match d with | .null => none | _ => some (decV d) }
+
+/-- {"a":{"type","args","default"},"b":{…}}: do merge.go's comparisons accept the two declarations of one field -/
+def runMergeSig (j : Json) : Json :=
+  let fld (o : Json) := (decTy ((getObj? o "type").getD (Json.mkObj [])), decArgDefs (getArr o "args"))
+  let a := fld ((getObj? j "a").getD (Json.mkObj []))
+  let b := fld ((getObj? j "b").getD (Json.mkObj []))
+  Json.mkObj [("types", .bool (Ms.typesEqual (some a.1) (some b.1))), ("args", .bool (Ms.argDefsEq a.2 b.2))]
+
 def handle (j : Json) : Json :=
   match getStr j "op" with
   | "mono" => Json.mkObj [("data", encVal (Mono.mono (decCase j)))]
   | "merge" => runMerge j
+  | "mergesig" => runMergeSig j
   | "plan" => PlanCodec.runPlan j
   | "trace" => runTrace j
   | "exec" => runExec j
